@@ -574,11 +574,15 @@ where
         let (dropped_tx, mut dropped_rx) = oneshot::channel();
 
         // Build initial state.
+        // The initial contents count towards the size limit.
+        let initial = self.take_initial().unwrap_or_default();
+        let error = if initial.len() > max_size { Some(RecvError::MaxSizeExceeded(max_size)) } else { None };
+        let failed = error.is_some();
         let inner = Arc::new(RwLock::new(Some(MirroredHashSetInner {
-            hs: self.take_initial().unwrap_or_default(),
+            hs: initial,
             complete: self.is_complete(),
             done: self.is_done() && self.is_complete(),
-            error: None,
+            error,
             max_size,
         })));
         let inner_task = inner.clone();
@@ -587,6 +591,10 @@ where
         let tx_send = tx.clone();
         exec::spawn(
             async move {
+                if failed {
+                    return;
+                }
+
                 loop {
                     let event = tokio::select! {
                         event = self.recv() => event,
